@@ -310,8 +310,9 @@ def e2e_case(case):
     skw = {"block_size": BLOCK}
     ukw = {}
     ckw = {}
-    srv_dir = "write" if direction == "download" else "read"
-    cli_dir = "read" if direction == "download" else "write"
+    listing = direction in ("list", "mlsd")          # a directory listing is a download too
+    srv_dir = "write" if direction == "download" or listing else "read"
+    cli_dir = "read" if direction == "download" or listing else "write"
     lim = {lv: (LIM if i == 0 else 2 * LIM) for i, lv in enumerate(levels)}      # first level is the tightest
     if case.get("opposite"):
         srv_dir, cli_dir = cli_dir, srv_dir          # limit only the opposite direction: must cost nothing
@@ -334,7 +335,11 @@ def e2e_case(case):
 
     data = bytes(range(256)) * (size // 256 + 1)
     data = data[:size]
-    rig = Rig(tree={f"f{k}": data for k in range(nconn)}, users=users, server_kwargs=skw)
+    tree = {f"f{k}": data for k in range(nconn)}
+    if listing:
+        for k in range(nconn):
+            tree[f"d{k}"] = {f"entry-with-a-long-name-{i:03d}": b"" for i in range(max(1, size // 60))}
+    rig = Rig(tree=tree, users=users, server_kwargs=skw)
     w = rig.world
     a = w.aioftp
     times = {}
@@ -372,7 +377,17 @@ def e2e_case(case):
         async def one(k):
             c = clients[k]
             t_begin = w.loop.time()
-            if direction == "download":
+            if listing:
+                n_lines = 0
+                async with c.get_stream(f"{direction.upper()} /d{k}", "1xx") as st:
+                    streams[k].append(st.writer.transport)
+                    while True:
+                        line = await st.readline()
+                        if not line:
+                            break
+                        n_lines += 1
+                ok = n_lines == max(1, size // 60)
+            elif direction == "download":
                 got = bytearray()
                 async with c.download_stream(f"/f{k}") as st:
                     streams[k].append(st.writer.transport)
@@ -444,7 +459,7 @@ def e2e_case(case):
                 else:
                     groups = [[k] for k in range(nconn)]
                 limited_side = "client" if tight == "client" else "server"
-                io = "write" if (direction == "download") == (limited_side == "server") else "read"
+                io = "write" if (direction == "download" or listing) == (limited_side == "server") else "read"
                 for g in groups:
                     trs = []
                     for k in g:
@@ -488,7 +503,7 @@ def e2e_case(case):
                     # a looser (2 x LIM) limit of a *wider* scope can still be the binding one for the sum of several
                     # connections: then the bound is what that limit requires for everything in its scope
                     if len(levels) == 2 and levels[1] in ("server", "user"):
-                        srv_io = "write" if direction == "download" else "read"
+                        srv_io = "write" if direction == "download" or listing else "read"
                         scope = range(nconn) if levels[1] == "server" else [k for k in range(nconn)
                                                                               if k % nusers in {j % nusers for j in g}]
                         wide = 0
@@ -587,6 +602,11 @@ def e2e_items(tier):
                     # the same, with other connections of the same users logging in and out in between
                     cases.append({"levels": levels, "direction": direction, "nconn": nconn, "nusers": nusers,
                                   "size": sizes[0], "churn": True})
+    # directory listings are data transfers as well (LIST and MLSD of a directory with many entries)
+    for levels in ([lv] for lv in LEVELS):
+        for direction in ("list", "mlsd"):
+            for nconn, nusers in ((1, 1), (2, 1)):
+                cases.append({"levels": levels, "direction": direction, "nconn": nconn, "nusers": nusers, "size": 20 * 60})
     # other sessions of the same account log in and out *while* the measured transfers are running
     for levels in (["user"], ["user", "server"], ["server"], ["user_per_connection"], ["user", "client"]):
         for direction in ("download", "upload"):
